@@ -37,7 +37,6 @@ Definition k_sig : bytes := Eval compute in bs "sig".
 Definition k_revisit : bytes := Eval compute in bs "revisit-with-new-remainder".
 Definition k_lexical : bytes := Eval compute in bs "lexical-dotdot-across-symlink".
 Definition k_wildmid : bytes := Eval compute in bs "wildcard-middle-component-not-followed".
-Definition k_bytewise : bytes := Eval compute in bs "bytewise-sort-keeps-nested-path".
 Definition k_term : bytes := Eval compute in bs "terminated-ok".
 Definition k_sorted : bytes := Eval compute in bs "sorted".
 Definition k_minimal : bytes := Eval compute in bs "minimal".
@@ -73,8 +72,6 @@ Definition run_1801 (input impl : sx) : sx :=
           else if negb (lexical_safe view reqs) then [sig k_lexical]
           else if negb (wild_last_only reqs) then [sig k_wildmid]
           else []
-        else if srt && nilok && negb mini && existsb has_low_byte res
-             then [sig k_bytewise]
         else [] in
       verdict m impl spec (SL (s ++ [flag k_sorted srt; flag k_minimal mini; flag k_nilok nilok;
                                       flag k_closed closed]))
